@@ -41,7 +41,7 @@ def translate(ctx):
 def _lemma_spans(src):
     """[(name, start, end)] of the top-level Lemma/Theorem/Definition sentences of a .v text (end = after Qed./Defined./'.')"""
     out = []
-    for m in re.finditer(r"^(Lemma|Theorem|Definition)\s+([A-Za-z0-9_']+)", src, re.M):
+    for m in re.finditer(r"^(Lemma|Theorem|Definition)\s+([\w']+)", src, re.M):
         if m.group(1) == "Definition":
             e = re.compile(r"\.\s*\n").search(src, m.end())
         else:
@@ -119,7 +119,11 @@ def exact_status(ctx):
 
 
 def validate(ctx, terms, idx, cases, outs, to_input):
-    """generated definitions vs implementation, directly, at binary64"""
+    """generated definitions vs implementation, directly, at binary64.
+    `ustep` cases are left out: they run UnconstrProblem (unconstr-problem.hpp), which is not a translated source (the hand model
+    covers it as a box with infinite sides; the generated definitions are BoxConstrProblem's own expressions)."""
+    keep = [j for j, k in enumerate(idx) if cases[k]["op"] != "ustep"]
+    terms, idx = [terms[j] for j in keep], [idx[j] for j in keep]
     failing = core.coq_failing_cases(ctx, "gencorr", "Prox ProxGenLib ProxGen Corr_C15 Corr_ProxGen", "c15case", "chk15g", terms,
                                      dump="model15g")
     tp = ctx.coverage.setdefault("translator_prox", {})
